@@ -6,6 +6,7 @@ import (
 	"go/constant"
 	"go/token"
 	"go/types"
+	"golang.org/x/tools/go/packages"
 	"sort"
 	"strings"
 
@@ -1621,6 +1622,7 @@ func ruleRingSlotIndex(c *Ctx) {
 		c.Lost("ring-slot-index.anchor", "package bqueue not found")
 		return
 	}
+	slotCountAgreement(c, pk)
 	n := 0
 	for _, fd := range c.P.AllFuncDecls() {
 		if fd.Pkg != pk || fd.Decl.Body == nil {
@@ -4782,4 +4784,95 @@ func nodeWritesIn(f *FuncCFG, n ast.Node) []string {
 		return true
 	})
 	return out
+}
+
+// slotCountAgreement: `len` counts occupied ring slots (LastQueued reports cacheSize-len as the room left, and the
+// server stops asking for blocks at zero). It may therefore grow only where an *empty* slot becomes occupied - the
+// increment sits under a test that the slot equals the nil element, as a conjunct of its own, not as one side of an
+// "empty or stale" disjunction (replacing a stale element occupies nothing new) - and shrink only together with the
+// slot being emptied in the same statement list.
+func slotCountAgreement(c *Ctx, pk *packages.Package) {
+	n := 0
+	for _, fd := range c.P.AllFuncDecls() {
+		if fd.Pkg != pk || fd.Decl.Body == nil {
+			continue
+		}
+		f := c.P.NewFuncCFG(fd)
+		isSlotNilTest := func(e ast.Expr) bool {
+			be, ok := ast.Unparen(e).(*ast.BinaryExpr)
+			if !ok || be.Op != token.EQL {
+				return false
+			}
+			mx, my := f.DirectMentions(be.X), f.DirectMentions(be.Y)
+			return (mx["pkg/network/bqueue#queue"] && my["pkg/network/bqueue#nilQ"]) || (my["pkg/network/bqueue#queue"] && mx["pkg/network/bqueue#nilQ"])
+		}
+		var conjuncts func(e ast.Expr) []ast.Expr
+		conjuncts = func(e ast.Expr) []ast.Expr {
+			if be, ok := ast.Unparen(e).(*ast.BinaryExpr); ok && be.Op == token.LAND {
+				return append(conjuncts(be.X), conjuncts(be.Y)...)
+			}
+			return []ast.Expr{e}
+		}
+		var stack []ast.Node
+		k := 0
+		ast.Inspect(fd.Decl.Body, func(x ast.Node) bool {
+			if x == nil {
+				stack = stack[:len(stack)-1]
+				return true
+			}
+			stack = append(stack, x)
+			id, ok := x.(*ast.IncDecStmt)
+			if !ok || !f.DirectMentions(id.X)["pkg/network/bqueue#len"] {
+				return true
+			}
+			n++
+			k++
+			key := fmt.Sprintf("ring-slot-index.count.%s#%d", FuncKey(fd.Obj), k)
+			if id.Tok == token.INC {
+				ok := false
+				for i := len(stack) - 2; i >= 0; i-- {
+					is, isIf := stack[i].(*ast.IfStmt)
+					if !isIf || i+1 >= len(stack) || stack[i+1] != ast.Node(is.Body) {
+						continue
+					}
+					for _, cj := range conjuncts(is.Cond) {
+						if isSlotNilTest(cj) {
+							ok = true
+						}
+					}
+				}
+				if ok {
+					c.OK(key, c.P.Pos(id.Pos()), "len grows only under a test that the slot is empty")
+				} else {
+					c.Fail(key, c.P.Pos(id.Pos()), fmt.Sprintf("%s increments len without being under a test of its own that the ring slot is empty: an element that replaces a stale one in the same slot is counted again, the room LastQueued reports shrinks for good and at zero the server stops asking for blocks", FuncKey(fd.Obj)))
+				}
+				return true
+			}
+			// DEC: the same statement list empties a slot
+			emptied := false
+			if len(stack) >= 2 {
+				var list []ast.Stmt
+				switch p := stack[len(stack)-2].(type) {
+				case *ast.BlockStmt:
+					list = p.List
+				case *ast.CaseClause:
+					list = p.Body
+				}
+				for _, st := range list {
+					if as, ok := st.(*ast.AssignStmt); ok && len(as.Lhs) == 1 && len(as.Rhs) == 1 {
+						if f.DirectMentions(as.Lhs[0])["pkg/network/bqueue#queue"] && f.DirectMentions(as.Rhs[0])["pkg/network/bqueue#nilQ"] {
+							emptied = true
+						}
+					}
+				}
+			}
+			if emptied {
+				c.OK(key, c.P.Pos(id.Pos()), "len shrinks together with a slot being emptied")
+			} else {
+				c.Fail(key, c.P.Pos(id.Pos()), fmt.Sprintf("%s decrements len without emptying a ring slot in the same statement list", FuncKey(fd.Obj)))
+			}
+			return true
+		})
+	}
+	c.Floor("updates of the queue's element counter", n, 3)
 }
